@@ -15,6 +15,7 @@ def run(ck: Checker):
     ck.rule('C07-2', 'an id that is no longer in the ledger is tolerated: KeyError handled inside the gather loop', minimum=2)
     ck.rule('C07-3', "abandonment is local: on expiry only the caller's own future is cancelled; ledger, queues and admission condition are not touched; stream cleanup only cancels (WHO)", minimum=4)
     ck.rule('C07-4', 'a late result of an abandoned (cancelled) request still gives its slot back and wakes a waiter: ledger removal and exactly one signal per message whatever the state of the future — otherwise other callers stay blocked (EXITS+COUNT)', minimum=8)
+    ck.rule('C07-8', 'a request whose result is not ready by ITS deadline raises TimeoutError: the deadline stored with the request is anchored at the arrival of the request (a clock reading taken before the admission wait), so that the time spent waiting for a slot counts against the caller\'s timeout (same obligation as C06-12)', minimum=1)
     ck.rule('C07-7', 'a request abandoned while it waits for admission harms nobody: a waiter that was woken by the per-request notify() and then gives up re-evaluates the capacity guard or passes the wake-up on — otherwise the freed slot is announced to nobody and the other pending callers keep waiting on an idle server (same obligation as C06-13)', minimum=2)
     for name in server.SERVERS:
         s = server.discover(ck.repo, name)
@@ -24,6 +25,7 @@ def run(ck: Checker):
         server.check_abandon_local(ck, 'C07-3', s)
         server.check_only_deleter(ck, 'C07-3', s)
         server.check_wakeup_not_wasted(ck, 'C07-7', s)
+        server.check_single_deadline(ck, 'C07-8', s)
     # stream cleanup: the only operations on dequeued futures are result / cancel / await
     for q in ('fifo_stream', 'async_fifo_stream'):
         outer = ck.repo.func(STREAMER, q)
